@@ -84,7 +84,7 @@ def main():
     laws_seen = {}
     for b in range(0, len(hists), 200):
         part = hists[b:b + 200]
-        r = impl("units_worker.py", {"histories": part, "monitor": False})
+        r = impl("units_worker.py", {"histories": part, "monitor": False, "refused_first": True})
         envdims = {i: {a: x for a, x in d} for i, d, _ in r["env"]}
         # property monitor: identity classes of the implementation == normal forms of the independent oracle
         by_nf, by_oid = {}, {}
